@@ -409,6 +409,31 @@ func (x *fx) loopEnv(li *loopInfo, phiVals map[*ssa.Phi]*Val, mem *memNode) *spe
 	return env
 }
 
+// allocNamed: the cell of the source variable `name` when the variable lives in
+// memory (captured by a closure, or address-taken) and no single SSA value stands
+// for it at this point (different loads of it reach the point along different
+// edges).  The result is the POINTER to the cell: write deref(name) to read it.
+func (x *fx) allocNamed(name string) *Val {
+	var found *ssa.Alloc
+	for _, b := range x.fn.Blocks {
+		for _, in := range b.Instrs {
+			if a, ok := in.(*ssa.Alloc); ok && a.Comment == name {
+				if found != nil {
+					return nil
+				}
+				found = a
+			}
+		}
+	}
+	if found == nil {
+		return nil
+	}
+	if v, ok := x.vals[found]; ok {
+		return v
+	}
+	return nil
+}
+
 func (x *fx) lookupVal(v ssa.Value) (r *Val, ok bool) {
 	defer func() {
 		if e := recover(); e != nil {
@@ -493,6 +518,23 @@ func (x *fx) loopHeader(li *loopInfo, phiEntry map[*ssa.Phi]*Val) {
 	}
 	x.initKeepAll()
 	keepRegs := x.keepAllRegs
+	untouchedCells := map[string]bool{} // (p-ref |fv|) of the free variables the loop does not store through
+	for _, fv := range x.fn.FreeVars {
+		if _, ok := fv.Type().Underlying().(*types.Pointer); !ok {
+			continue
+		}
+		touched := false
+		for bi := range li.body {
+			for _, in := range x.fn.Blocks[bi].Instrs {
+				if st, ok := in.(*ssa.Store); ok && rootValue(st.Addr) == ssa.Value(fv) {
+					touched = true
+				}
+			}
+		}
+		if v, ok := x.vals[fv]; ok && !touched {
+			untouchedCells[ptrRef(v.S)] = true
+		}
+	}
 	h.frame = func(n, nv, ov string) {
 		baseFrame(n, nv, ov)
 		// a memory the loop body never stores to directly can only be changed by
@@ -500,6 +542,16 @@ func (x *fx) loopHeader(li *loopInfo, phiEntry map[*ssa.Phi]*Val) {
 		if !li.writes[n] {
 			for _, r := range keepRegs {
 				if r.mem == n {
+					x.assume(x.keepRegion(r, nv, ov))
+				}
+			}
+		} else {
+			// the cell of a captured variable (a free variable of this closure) is
+			// not aliased by any other pointer of this function: when the loop has no
+			// store through the free variable itself, only its unmodelled callees could
+			// change the cell, and the keepsall assumption applies as above
+			for _, r := range keepRegs {
+				if r.mem == n && untouchedCells[r.ref] {
 					x.assume(x.keepRegion(r, nv, ov))
 				}
 			}
@@ -1674,6 +1726,21 @@ func (x *fx) rootFieldMem(addr ssa.Value, a *ssa.Alloc) string {
 		}
 	}
 	return ""
+}
+
+// rootValue: the pointer an address is derived from through field and index selections.
+func rootValue(v ssa.Value) ssa.Value {
+	for depth := 0; depth < 6; depth++ {
+		switch u := v.(type) {
+		case *ssa.FieldAddr:
+			v = u.X
+		case *ssa.IndexAddr:
+			v = u.X
+		default:
+			return v
+		}
+	}
+	return v
 }
 
 func rootAlloc(v ssa.Value) *ssa.Alloc {
